@@ -32,7 +32,8 @@ ASSUMPTIONS = ["Fock matrix elements of gates (The Walrus / ops.py closed forms)
                "bosonic backend covered by differential search only (no Coq model yet)"]
 MANIFEST_TEXT = ("Proved over any commutative ring, all register sizes / target positions / parameters: read-out(op s) = documented symplectic-affine map "
                  "applied to read-out(s) for rotation, squeezing, displacement, beam splitter, loss, thermal loss, thermal preparation of GaussianModes "
-                 "(model regenerated each run). Bosonic and Fock agreement: differential search (partial).")
+                 "(model regenerated each run); Fock simulator: gates act on exactly the listed modes in the listed order, pure and mixed representations "
+                 "commute (FockAxes). Bosonic agreement and agreement of Fock matrix elements with phase space: differential search (partial).")
 
 
 # ------------------------------------------------------------------------------------------
